@@ -308,8 +308,62 @@ def module_source(env, roots) -> str:
     return "".join(out)
 
 
+def canonicalise_unions(env, roots):
+    """typing caches generic subscriptions on ==, and unions compare as sets: within one process
+    `typing.Sequence[Union[a, b]]` evaluated after `typing.Sequence[Union[b, a]]` IS the earlier object, member order
+    included.  So that a description always says what the evaluated annotation says, every union whose member set
+    occurred before (in this module) takes the member order of its first occurrence (in place: the member lists
+    are shared with the callers), and typing's caches are cleared before a module is materialised.  Differently
+    ordered equal unions in one process are C12's subject (known finding KF-C12-union-order), not the core model's."""
+    seen = {}
+
+    def walk(d):
+        k = d[0]
+        if k == "seq":
+            walk(d[3])
+        elif k == "map":
+            walk(d[3]); walk(d[4])
+        elif k == "tuple":
+            for x in d[2]:
+                walk(x)
+        elif k in ("newtype", "alias"):
+            walk(d[2])
+        elif k in ("final", "classvar", "wrapref"):
+            walk(d[1])
+        elif k == "union":
+            for x in d[2]:
+                walk(x)
+            srcs = [src_ty(x, env) for x in d[2]]
+            key = frozenset(srcs)
+            if not isinstance(d[2], list) or len(key) != len(srcs):
+                return
+            ent = seen.setdefault(key, {"order": srcs, "lists": []})
+            if d[1] == "Optional" and ent["order"] != srcs:
+                # Optional[X] can only be spelled (X, None): the earlier occurrences follow it
+                ent["order"] = srcs
+                for l in ent["lists"]:
+                    l.sort(key=lambda x: srcs.index(src_ty(x, env)))
+            elif ent["order"] != srcs:
+                order = ent["order"]
+                d[2].sort(key=lambda x: order.index(src_ty(x, env)))
+            ent["lists"].append(d[2])
+
+    for n, dfn in env["defs"].items():
+        if dfn[0] == "class":
+            for f in dfn[3]:
+                walk(f[1])
+        elif dfn[0] == "alias" and len(dfn) > 1 and isinstance(dfn[1], tuple):
+            walk(dfn[1])
+    for r in roots:
+        walk(r)
+
+
 def materialise(env, roots):
     """-> (module, [python types for roots])"""
+    import typing
+    canonicalise_unions(env, roots)
+    for f in getattr(typing, "_cleanups", ()):
+        f()
     src = module_source(env, roots)
     mod = impl.new_module(env["module"], src)
     tys = [eval(src_ty(r, env), mod.__dict__) for r in roots]
